@@ -775,7 +775,7 @@ func runInChild(c *Case) {
 func evStreams(r *rng, tier string) {
 	n := 40
 	if tier == "thorough" {
-		n = 5000
+		n = 3000
 	}
 	for i := 0; i < n; i++ {
 		c := genCase(r)
